@@ -192,7 +192,6 @@ Inductive c06_class : Type :=
 | K_cls_falsy_default_is_zero      (* a falsy default (0, False, empty string) becomes the zero value of the declared type *)
 | K_cls_type_from_default          (* untyped attribute: annotation is the default's Python type *)
 | K_cls_private_name_mangled       (* an attribute named __x is stored by Python as _Class__x *)
-| K_cls_prose_announces_default    (* the prose itself announces a default: to_docstring overwrites the explicit one with it *)
 | K_ap_single_literal_no_choices   (* Literal with one member: no choices= *)
 | K_ap_other.                      (* argparse type/required/default inference differs from the IR (C04's classes) *)
 
@@ -211,7 +210,6 @@ Definition c06_class_name (k : c06_class) : str :=
   | K_cls_falsy_default_is_zero => L "class-falsy-default-becomes-zero"
   | K_cls_type_from_default => L "class-annotation-from-default"
   | K_cls_private_name_mangled => L "class-private-name-mangled"
-  | K_cls_prose_announces_default => L "class-prose-announces-default"
   | K_ap_single_literal_no_choices => L "argparse-single-literal-no-choices"
   | K_ap_other => L "argparse-inference"
   end.
@@ -377,11 +375,7 @@ Definition finding_class_C06 (kind : c06_kind) (clause : str) (i : ir) (inline_t
                              end) then Some K_cls_str_default_parsed_as_code
       else None
     else if str_eqb clause (L "attr_value") then
-      if anyp (fun g => match fget (g_doc g) with
-                        | Some d => match location_within casefold d default_announces with Some _ => true | None => false end
-                        | None => false
-                        end) then Some K_cls_prose_announces_default
-      else if anyp is_code_default then Some K_code_default_is_string
+      if anyp is_code_default then Some K_code_default_is_string
       else if anyp (fun g => match fget (g_typ g), g_default g with
                              | Some t, Some (DV (VStr s)) =>
                                negb (code_quoted s)
